@@ -89,6 +89,10 @@ fn pos_ledger(pos: &str, lit: &str) -> Option<String> {
         "balance" => posting_text(&format!("1 USD = {} USD", lit)),
         "balonly" => posting_text(&format!("= {} USD", lit)),
         "format" => format!("commodity USD\n    format {} USD\n", lit),
+        // numbers written WITHOUT a commodity: a bare posting amount, a bare balance assertion, a factor of an expression
+        "bare" => posting_text(lit),
+        "barebal" => posting_text(&format!("= {}", lit)),
+        "factor" => posting_text(&format!("({} * 2 USD)", lit)),
         _ => return None,
     })
 }
@@ -140,7 +144,18 @@ fn pos_record(pos: &str, lit: &str) -> String {
                         let (k, v) = exch_vexpr(x);
                         if k == "total" { amount_of_vexpr(v, "lottotal") } else { None }
                     }),
-                    "balance" | "balonly" => p.balance.as_ref().and_then(|v| amount_of_vexpr(v, "balance")),
+                    "balance" | "balonly" | "barebal" => p.balance.as_ref().and_then(|v| amount_of_vexpr(v, "balance")),
+                    "bare" => p.amount.as_ref().and_then(|a| amount_of_vexpr(&a.amount, "amount")),
+                    "factor" => p.amount.as_ref().and_then(|a| match &a.amount {
+                        expr::ValueExpr::Paren(expr::Expr::Binary(b)) if b.op == expr::BinaryOp::Mul => match b.lhs.as_ref() {
+                            expr::Expr::Value(v) => match v.as_ref() {
+                                expr::ValueExpr::Amount(x) => Some(x),
+                                _ => None,
+                            },
+                            _ => None,
+                        },
+                        _ => None,
+                    }),
                     _ => None,
                 }
             }
@@ -149,7 +164,8 @@ fn pos_record(pos: &str, lit: &str) -> String {
         match amt {
             None => shape(),
             Some(a) => {
-                if a.commodity != "USD" {
+                let want = if matches!(pos.as_str(), "bare" | "barebal" | "factor") { "" } else { "USD" };
+                if a.commodity != want {
                     return shape();
                 }
                 let ctx = DisplayContext::default();
